@@ -13,7 +13,8 @@ RULE = (
     "Cases: sequences (near-poly-A tails / poly-T heads around the 20 % and length-3 boundaries, N runs in both cases, "
     "arbitrary ACGTN text) and quality strings (lengths 0..70 so that every remainder of the 4x unrolled loop occurs) "
     "drawn by Hypothesis, plus exhaustive sweeps over {A,C}* (poly-A/T) and {N,n,A}* (N ends, N count); a CLI slice "
-    "runs --poly-a/--trim-n/--max-n/--max-ee on generated single/paired files. Oracles: executable definitions "
+    "runs --poly-a/--trim-n/--max-n/--max-ee on generated single/paired files; sub-check 'rc' combines --poly-a with "
+    "an adapter and --revcomp (the suffix of the orientation chosen by the adapter stage). Oracles: executable definitions "
     "(suffix score scan, str.strip, math.fsum of 10^(-Q/10) with tolerance 1e-13 relative, 2e-15 for single characters, case-insensitive count). "
     "Non-trivial: poly-A: a tail is removed whose best suffix bridges an interior non-A base or sits on the 20 % / "
     "length-3 boundary; N: Ns at an end and in the interior or lower-case n present; expected errors: len % 4 != 0 "
@@ -292,7 +293,43 @@ def check_cli(case, ctx):
         ctx.nontrivial_case({"args": args, "kept": len(exp1)})
 
 
+@st.composite
+def rc_case(draw):
+    """--poly-a together with an adapter and --revcomp: the tail of whatever orientation the adapter stage chose."""
+    ad = draw(st.sampled_from(["ACGGTCA", "GGTTCCA", "TTAGGC"]))
+    recs = []
+    for i in range(draw(st.integers(1, 5))):
+        body = draw(st.text(alphabet="ACGT", min_size=3, max_size=14))
+        tail = draw(st.sampled_from(["", "AAAA", "AAAAAAAAAA", "AAAACAAAAA", "CAAAAT", "AAAAAAAACA"]))
+        head = draw(st.sampled_from(["", "TTTT", "TTTTTTTTT"]))
+        s = head + body + tail + (ad if draw(st.booleans()) else "")
+        if draw(st.booleans()):
+            s = cli.revcomp(s)
+        recs.append([f"r{i}x", s, "I" * len(s)])
+    return {"sub": "rc", "adapter": ad, "recs": recs}
+
+
+def check_rc(case, ctx):
+    base = ["-a", case["adapter"], "--revcomp", "-o", "out.fastq", "in.fastq"]
+    files = {"in.fastq": cli.fastq(case["recs"])}
+    r0 = cli.run(base, files)
+    r1 = cli.run(["--poly-a"] + base, files)
+    if r0.exit != 0 or r1.exit != 0:
+        raise Violation(f"cutadapt failed: {r0.errors} {r1.errors} {r1.tb}")
+    nt = False
+    for a, b in zip(r0.records("out.fastq"), r1.records("out.fastq")):
+        i, _ = ref_poly_a(a[1])
+        exp = (a[0], a[1][:i], a[2][:i])
+        if tuple(b) != exp:
+            raise Violation(f"--poly-a after adapter trimming with --revcomp: read {a[0]!r} {a[1]!r} became {b[1]!r}, "
+                            f"the documented scan removes the suffix and gives {exp[1]!r}", observed=list(b), expected=list(exp))
+        nt = nt or (i < len(a[1]) and a[0].endswith(" rc"))
+    if nt:
+        ctx.nontrivial_case({"adapter": case["adapter"], "reads": [x[1] for x in case["recs"]]})
+
+
 SUBS = {
+    "rc": Sub(strategy=lambda tier: rc_case(), check=check_rc),
     "api": Sub(strategy=lambda tier: api_case(), check=check_api, sweep=sweep_api),
     "cli": Sub(strategy=lambda tier: cli_case(), check=check_cli),
 }
@@ -302,12 +339,14 @@ def plan(tier):
     specs = []
     if tier == "quick":
         specs += [{"sub": "api", "kind": "hyp", "examples": 6000} for _ in range(8)]
-        specs += [{"sub": "cli", "kind": "hyp", "examples": 700} for _ in range(4)]
+        specs += [{"sub": "cli", "kind": "hyp", "examples": 700} for _ in range(3)]
+        specs += [{"sub": "rc", "kind": "hyp", "examples": 500} for _ in range(2)]
         specs += [{"sub": "api", "kind": "sweep", "what": "poly", "maxlen": 12},
                   {"sub": "api", "kind": "sweep", "what": "n", "maxlen": 8}]
     else:
         specs += [{"sub": "api", "kind": "hyp", "examples": 150000} for _ in range(10)]
-        specs += [{"sub": "cli", "kind": "hyp", "examples": 15000} for _ in range(4)]
+        specs += [{"sub": "cli", "kind": "hyp", "examples": 15000} for _ in range(3)]
+        specs += [{"sub": "rc", "kind": "hyp", "examples": 12000} for _ in range(2)]
         specs += [{"sub": "api", "kind": "sweep", "what": "poly", "maxlen": 16},
                   {"sub": "api", "kind": "sweep", "what": "n", "maxlen": 10}]
     if tier == "thorough":
